@@ -145,7 +145,7 @@ package sql
 //@ func (*ATTx).Rollback
 //@   prop C02 C16
 //@   inline
-//@   ensures C16/rollback-outcome-is-the-transactions: called("(*Tx).Rollback#1") && !called("(*Tx).Rollback#2") && result == callres("(*Tx).Rollback#1", 0)
+//@   ensures rollback-outcome-is-the-transactions: called("(*Tx).Rollback#1") && !called("(*Tx).Rollback#2") && result == callres("(*Tx).Rollback#1", 0)
 //@   requires forall(i, 0, len(txHooks), txHooks[i] != nil)
 //@   requires tx != nil && tx.tx != nil && tx.tx.tranCtx != nil && tx.tx.conn != nil && tx.tx.target != nil
 //@   modifies heap.all, ghost.all
@@ -180,9 +180,9 @@ package sql
 //@   prop C02 C16 C01
 //@   let cv16 := ctxvalue(ctx, tm.seataContextVariable)
 //@   let global16 := cv16 != nil && cv16.(*tm.ContextVariable).Xid != ""
-//@   ensures C16/plain-outside-a-global-tx: !global16 && called("callback:f#1") && ghost.f_ok ==> ghost.f_calls == 1 && result1 == nil && result0 == callres("callback:f#1", 0) && ghost.dtx == old(ghost.dtx) && ghost.registers == 0 && ghost.reports == 0
-//@   ensures C16/failure-outside-is-the-statements-failure: !global16 && ghost.f_calls == 1 && !ghost.f_ok ==> result1 != nil && ghost.dtx == old(ghost.dtx) && ghost.registers == 0 && ghost.reports == 0
-//@   ensures C16/statement-always-runs-outside: !global16 ==> ghost.f_calls == 1
+//@   ensures plain-outside-a-global-tx: !global16 && called("callback:f#1") && ghost.f_ok ==> ghost.f_calls == 1 && result1 == nil && result0 == callres("callback:f#1", 0) && ghost.dtx == old(ghost.dtx) && ghost.registers == 0 && ghost.reports == 0
+//@   ensures failure-outside-is-the-statements-failure: !global16 && ghost.f_calls == 1 && !ghost.f_ok ==> result1 != nil && ghost.dtx == old(ghost.dtx) && ghost.registers == 0 && ghost.reports == 0
+//@   ensures statement-always-runs-outside: !global16 ==> ghost.f_calls == 1
 //@   let auto02 := c.Conn.autoCommit
 //@   ensures autocommit-mode-restored: auto02 && ghost.dtx != 1 ==> c.Conn.autoCommit
 //@   requires forall(i, 0, len(txHooks), txHooks[i] != nil)
@@ -262,7 +262,7 @@ package sql
 // replace BEGIN/COMMIT); its Rollback must be callable in both.
 //@ func (*Tx).Rollback
 //@   prop C17 C02 C16 C03
-//@   ensures C16/outcome-is-the-target-drivers: tx.target != nil ==> called("(driver.Tx).Rollback#1") && !called("(driver.Tx).Rollback#2") && result == callres("(driver.Tx).Rollback#1", 0)
+//@   ensures outcome-is-the-target-drivers: tx.target != nil ==> called("(driver.Tx).Rollback#1") && !called("(driver.Tx).Rollback#2") && result == callres("(driver.Tx).Rollback#1", 0)
 //@   requires tx != nil && forall(i, 0, len(txHooks), txHooks[i] != nil)
 //@   modifies ghost.dtx
 //@   ensures xa-no-local-tx: tx.target == nil ==> ghost.dtx == old(ghost.dtx) && result == nil
@@ -370,7 +370,7 @@ package sql
 
 //@ func (*XAConn).BeginTx
 //@   prop C17 C16
-//@   ensures C16/plain-begin-outside-a-global-tx: !global ==> ghost.registers == 0 && ghost.xa_state == 0 && !called("start#1") && (result1 == nil ==> isT(result0, *Tx))
+//@   ensures plain-begin-outside-a-global-tx: !global ==> ghost.registers == 0 && ghost.xa_state == 0 && !called("start#1") && (result1 == nil ==> isT(result0, *Tx))
 //@   requires c != nil && c.Conn != nil && c.Conn.res != nil && c.Conn.targetConn != nil && c.Conn.txCtx != nil && ctx != nil
 //@   let cv := ctxvalue(ctx, tm.seataContextVariable)
 //@   requires cv != nil ==> isT(cv, *tm.ContextVariable) && cv.(*tm.ContextVariable) != nil
@@ -387,8 +387,8 @@ package sql
 //@   ensures failed-start-is-not-held-for-phase-two: global && (c.Conn.res.shouldBeHeld || c.Conn.res.dbType != types.DBTypeUnknown) && called("start#1") && callres("start#1", 0) != nil ==> !c.isConnKept
 //@   at call start#1: assert id-from-xid-and-branch: c.xaBranchXid != nil && c.xaBranchXid.xid == cv.(*tm.ContextVariable).Xid && c.xaBranchXid.branchId == c.Conn.txCtx.BranchID && c.Conn.txCtx.BranchID != 0 && ghost.registers == 1 && ghost.reg_ok
 //@   ensures local-untouched: !global ==> ghost.xa_state == 0 && ghost.registers == 0
-//@   ensures C16/plain-begin-begins-on-the-target: !global && result1 == nil ==> ghost.dtx == 1 && isT(result0, *Tx) && result0.(*Tx).target != nil
-//@   ensures C16/plain-begin-leaves-the-xa-state-of-the-connection-alone: !global ==> c.tx == old(c.tx) && c.xaActive == old(c.xaActive) && c.xaBranchXid == old(c.xaBranchXid) && c.xaResource == old(c.xaResource) && c.isConnKept == old(c.isConnKept)
+//@   ensures plain-begin-begins-on-the-target: !global && result1 == nil ==> ghost.dtx == 1 && isT(result0, *Tx) && result0.(*Tx).target != nil
+//@   ensures plain-begin-leaves-the-xa-state-of-the-connection-alone: !global ==> c.tx == old(c.tx) && c.xaActive == old(c.xaActive) && c.xaBranchXid == old(c.xaBranchXid) && c.xaResource == old(c.xaResource) && c.isConnKept == old(c.isConnKept)
 //@   ensures never-beyond-active: ghost.xa_state != 3 && ghost.xa_state != 4
 
 //@ func (*XAConn).createNewTxOnExecIfNeed
